@@ -330,12 +330,13 @@ class BaseClient:
             else:
                 if ch == '"':
                     seq_quotes += 1
+                    if seq_quotes == 2:
+                        # doubled quote is quote itself
+                        seq_quotes = 0
+                        directory += '"'
                 else:
                     if seq_quotes == 1:
                         break
-                    elif seq_quotes == 2:
-                        seq_quotes = 0
-                        directory += '"'
                     directory += ch
         return pathlib.PurePosixPath(directory)
 
